@@ -345,6 +345,8 @@ pub mod bbsplus_utils {
         let mut random_scalars: Vec<Scalar> = Vec::new();
 
         for _i in 0..count {
+            #[cfg(zkryptium_verif)]
+            crate::verif_hooks::tick("calculate_random_scalars");
             random_scalars.push(get_random());
         }
 
